@@ -1,5 +1,5 @@
 (** C06 — checkpoint/restore at any time boundary is invisible.  Property theorems only. *)
-From Akita Require Import Lib.Base Lib.AbsSim Lib.AbsSimProofs C06.Model C06.Exec C06.Proofs.
+From Akita Require Import Lib.Base Lib.AbsSim Lib.AbsSimProofs C06.Model C06.Exec C06.Proofs C06.HeapBridge.
 Local Open Scope N_scope.
 
 (** Restoring a queue snapshot (events in pop order) into a fresh queue re-assigns
@@ -66,6 +66,24 @@ Theorem c06_model_agreement_implies_property : forall c,
   check_case c = true -> holds_on c = true \/ (exists a b c' d e, c = LibCase a b c' d e).
 Proof. exact check_implies_holds. Qed.
 Print Assumptions c06_model_agreement_implies_property.
+
+(** The heap-backed queue of timing/eventqueue.go as modelled in Lib/Engine (C01: list-backed
+    eventHeap with its index arithmetic, tied exactly to the Go code) refines the canonical
+    sorted queue used by the C06 framework theorems: for EVERY sequence of pushes and pops,
+    started from related queues (in particular from two fresh queues, i.e. after a restore),
+    both yield the same events in the same order.  This discharges the assumption "the
+    event queue behaves as a (time, seq) priority queue" inside Coq. *)
+Theorem c06_heap_queue_refines_canonical :
+  forall (Ev : Type) (ev_time : Ev -> N) (ops : list (qop Ev)) hq aq,
+  QRel Ev ev_time hq aq -> run_heap Ev ev_time ops hq = run_abs Ev ev_time ops aq.
+Proof. exact heap_refines_canonical. Qed.
+Print Assumptions c06_heap_queue_refines_canonical.
+
+Theorem c06_fresh_heap_queue_refines_canonical :
+  forall (Ev : Type) (ev_time : Ev -> N) (ops : list (qop Ev)),
+  run_heap Ev ev_time ops Engine.q_empty = run_abs Ev ev_time ops empty_queue.
+Proof. exact heap_restore_pop_order. Qed.
+Print Assumptions c06_fresh_heap_queue_refines_canonical.
 
 (** Non-vacuity: a two-handler script with a same-instant primary->secondary
     chain cut in the middle; the hypotheses hold and the cut is non-trivial. *)
